@@ -18,6 +18,12 @@ Sections:
              and all blocking variants (sync, tokio blocking, tokio async).
 * `refill` – a blocked `blocking_send` is woken because a batch was taken but the queue is full
              again before it retries: it must keep waiting and return `Err(item)` not before `T`.
+* `watchers`– caller-supplied watchers (`when_empty` / `when_flushed`, registered while the queue is
+             non-empty, hence run by the receiver) (i) park on a gate: `send` / `try_send` from other
+             threads must return while the gate is closed (causal verdict: "returned only after the
+             gate was opened" is the violation), (ii) call back into the sender (send, try_send,
+             when_empty, when_flushed, metrics, snapshot): the watcher must return; if it does not and
+             the channel's lock cannot be taken from another thread either, that is a deadlock.
 * `metrics`– the channel's metrics are sampled while other threads send: (i) a sampler parked inside its
              sampling callback must not hold up `send` / `try_send` (decided on stamp order: the sends
              return before the monitor releases the sampler; 3 of 3 repetitions before it is a
@@ -806,6 +812,26 @@ mod threads {
 
     /// A blocked `blocking_send` is woken (a batch was taken) but the queue is full again.
     pub fn refill_case(r: &mut Report, seed: u64, i: u64, cap: usize) {
+        // the scenario runs a watcher that calls back into the channel on this very thread: keep a
+        // deadlock in there from hanging the monitor
+        if WATCHERS_BROKEN.load(Ordering::SeqCst) {
+            r.inconclusive("refill: skipped, watchers that call back into the channel were seen to hang");
+            return;
+        }
+        let mut child = r.child();
+        match run_bounded("c09_refill", Duration::from_secs(45), move || {
+            refill_case_inner(&mut child, seed, i, cap);
+            child
+        }) {
+            Some(child) => r.merge(child),
+            None => {
+                WATCHERS_BROKEN.store(true, Ordering::SeqCst);
+                r.inconclusive("refill: a scenario did not finish within 45 s (its refill watcher calls try_send from inside the receiver)");
+            }
+        }
+    }
+
+    fn refill_case_inner(r: &mut Report, seed: u64, i: u64, cap: usize) {
         let mut g = Rng::stream(seed, &[9, 3, i]);
         let t = Duration::from_millis(*g.pick(&[40u64, 60, 80]));
         let kind = *g.pick(&BlockKind::all());
@@ -1477,6 +1503,21 @@ mod threads {
     }
 
     pub fn late_case(r: &mut Report, cap: usize, kind: BlockKind) {
+        if WATCHERS_BROKEN.load(Ordering::SeqCst) {
+            r.inconclusive("late: skipped, watchers that call back into the channel were seen to hang");
+            return;
+        }
+        let mut child = r.child();
+        match run_bounded("c09_late", Duration::from_secs(240), move || {
+            late_case_inner(&mut child, cap, kind);
+            child
+        }) {
+            Some(child) => r.merge(child),
+            None => r.inconclusive("late: a scenario did not finish within 240 s"),
+        }
+    }
+
+    fn late_case_inner(r: &mut Report, cap: usize, kind: BlockKind) {
         let case = json!({"section": "late", "capacity": cap, "blocking": kind.name(), "timeout_ms": LATE_T.as_millis() as u64, "woken_at_ms": LATE_WAKE.as_millis() as u64});
         k_of_k(
             r,
@@ -1926,6 +1967,18 @@ fn main() {
                 }
             }
             #[cfg(not(miri))]
+            "watchers" => {
+                emit_batcher::verif::set_delay_divisor(1000);
+                for reg in threads::Reg::ALL {
+                    for rk in threads::RecvKind::all() {
+                        threads::blocking_watcher_case(&mut r, reg, rk, cap);
+                        for op in threads::Reentry::ALL {
+                            threads::reentrant_watcher_case(&mut r, reg, op, rk, cap);
+                        }
+                    }
+                }
+            }
+            #[cfg(not(miri))]
             "metrics" => {
                 for k in 0..2 {
                     threads::metrics_cases(&mut r, cseed, idx + k, cap);
@@ -1968,118 +2021,175 @@ fn main() {
         std::process::exit(r.finish());
     }
 
+    // Every section runs on a helper thread with its own report and a generous limit: whatever
+    // the code under test does (a lock that is never released, …) the monitor ends with a result.
+    let sec_limit = Duration::from_secs(if args.thorough() { 1500 } else { 200 });
+
     // model
     if want("model") {
-        // Miri interprets ~1000x slower: its lane passes an absolute case count instead of a scale
-        let per_cap = if cfg!(miri) { args.get_u64("miri-cases", 4) } else { args.n(3_000, 12_000) };
-        let n_ops = if cfg!(miri) { 24 } else { 80 };
-        let total = per_cap * caps.len() as u64;
-        let caps = &caps;
-        par_cases(&mut r, &args, total, |i, r| {
-            let cap = caps[(i % caps.len() as u64) as usize];
-            model_case(r, seed, cap, i / caps.len() as u64, n_ops);
+        let (args2, caps2) = (args.clone(), caps.clone());
+        bounded_section(&mut r, "model", sec_limit, move |r| {
+            // Miri interprets ~1000x slower: its lane passes an absolute case count instead of a scale
+            let per_cap = if cfg!(miri) { args2.get_u64("miri-cases", 4) } else { args2.n(3_000, 12_000) };
+            let n_ops = if cfg!(miri) { 24 } else { 80 };
+            let total = per_cap * caps2.len() as u64;
+            let caps = &caps2;
+            par_cases(r, &args2, total, |i, r| {
+                let cap = caps[(i % caps.len() as u64) as usize];
+                model_case(r, seed, cap, i / caps.len() as u64, n_ops);
+            });
+            // leave room for samples of the other sections
+            r.samples.truncate(3);
         });
-        // leave room for samples of the other sections
-        r.samples.truncate(3);
     }
 
     // stall (hand-polled)
     if want("stall") {
-        for &cap in &caps {
-            for kind in BlockKind::all() {
-                let t = if cfg!(miri) { Duration::from_millis(1) } else { Duration::from_millis(3) };
-                stall_hand(&mut r, cap, t, kind);
+        let caps2 = caps.clone();
+        bounded_section(&mut r, "stall-hand", sec_limit, move |r| {
+            for &cap in &caps2 {
+                for kind in BlockKind::all() {
+                    let t = if cfg!(miri) { Duration::from_millis(1) } else { Duration::from_millis(3) };
+                    stall_hand(r, cap, t, kind);
+                }
             }
-        }
+        });
     }
 
     #[cfg(not(miri))]
     {
         // worker threads sleep for real between polls: scale their delays
         emit_batcher::verif::set_delay_divisor(1000);
+        // first of all: do caller-supplied watchers behave? (later sections rely on them)
+        if want("watchers") {
+            let args2 = args.clone();
+            bounded_section(&mut r, "watchers", sec_limit, move |r| {
+                let wcaps = [1usize, 2, 8];
+                let mut cells: Vec<(threads::Reg, Option<threads::Reentry>, threads::RecvKind, usize)> = Vec::new();
+                for reg in threads::Reg::ALL {
+                    for rk in threads::RecvKind::all() {
+                        for &cap in &wcaps {
+                            cells.push((reg, None, rk, cap));
+                        }
+                        for (k, op) in threads::Reentry::ALL.into_iter().enumerate() {
+                            cells.push((reg, Some(op), rk, wcaps[k % wcaps.len()]));
+                        }
+                    }
+                }
+                let cells = &cells;
+                par_cases(r, &args2, cells.len() as u64, |i, r| {
+                    let (reg, op, rk, cap) = cells[i as usize];
+                    match op {
+                        None => threads::blocking_watcher_case(r, reg, rk, cap),
+                        Some(op) => threads::reentrant_watcher_case(r, reg, op, rk, cap),
+                    }
+                });
+            });
+        }
         // the `late` cases mostly sleep (T = 2 s each): run them next to the other sections
-        let late_handles: Vec<std::thread::JoinHandle<Report>> = if want("late") {
+        let late_dones: Vec<Done<Report>> = if want("late") {
             let lcaps: Vec<usize> = if args.thorough() { vec![1, 2, 8] } else { vec![1 + (seed as usize % 3)] };
-            let mut hs = Vec::new();
+            let mut ds = Vec::new();
             for &cap in &lcaps {
                 for kind in BlockKind::all() {
                     let mut child = r.child();
-                    hs.push(std::thread::spawn(move || {
+                    let d: Done<Report> = Done::new();
+                    let d2 = d.clone();
+                    let _ = std::thread::Builder::new().name("c09_late_case".into()).spawn(move || {
                         threads::late_case(&mut child, cap, kind);
-                        child
-                    }));
+                        d2.set(child);
+                    });
+                    ds.push(d);
                 }
             }
-            hs
+            ds
         } else {
             Vec::new()
         };
         if want("metrics") {
-            let n = args.n(16, 160);
-            let caps = &caps;
-            par_cases(&mut r, &args, n, |i, r| {
-                let cap = caps[(i % caps.len() as u64) as usize];
-                threads::metrics_cases(r, seed, i, cap);
+            let (args2, caps2) = (args.clone(), caps.clone());
+            bounded_section(&mut r, "metrics", sec_limit, move |r| {
+                let n = args2.n(16, 160);
+                let caps = &caps2;
+                par_cases(r, &args2, n, |i, r| {
+                    let cap = caps[(i % caps.len() as u64) as usize];
+                    threads::metrics_cases(r, seed, i, cap);
+                });
             });
         }
         if want("stall") {
-            let mut cells = Vec::new();
-            for &cap in &caps {
-                for kind in BlockKind::all() {
-                    for rk in threads::RecvKind::all() {
-                        cells.push((cap, kind, rk));
-                    }
-                }
-            }
-            let cells = &cells;
-            par_cases(&mut r, &args, cells.len() as u64, |i, r| {
-                let (cap, kind, rk) = cells[i as usize];
-                threads::stall_thread(r, cap, Duration::from_millis(5), kind, rk);
-            });
-        }
-        if want("extreme") {
-            let ecaps: Vec<usize> = if args.thorough() { vec![1, 2, 3, 8, 64] } else { vec![1, 2, 8] };
-            let mut cells = Vec::new();
-            for &cap in &ecaps {
-                for kind in BlockKind::all() {
-                    for tmo in threads::Tmo::ALL {
+            let (args2, caps2) = (args.clone(), caps.clone());
+            bounded_section(&mut r, "stall-threads", sec_limit, move |r| {
+                let mut cells = Vec::new();
+                for &cap in &caps2 {
+                    for kind in BlockKind::all() {
                         for rk in threads::RecvKind::all() {
-                            cells.push((cap, kind, tmo, rk));
+                            cells.push((cap, kind, rk));
                         }
                     }
                 }
-            }
-            let cells = &cells;
-            par_cases(&mut r, &args, cells.len() as u64, |i, r| {
-                let (cap, kind, tmo, rk) = cells[i as usize];
-                threads::extreme_case(r, cap, kind, tmo, rk);
+                let cells = &cells;
+                par_cases(r, &args2, cells.len() as u64, |i, r| {
+                    let (cap, kind, rk) = cells[i as usize];
+                    threads::stall_thread(r, cap, Duration::from_millis(5), kind, rk);
+                });
+            });
+        }
+        if want("extreme") {
+            let args2 = args.clone();
+            bounded_section(&mut r, "extreme", sec_limit, move |r| {
+                let ecaps: Vec<usize> = if args2.thorough() { vec![1, 2, 3, 8, 64] } else { vec![1, 2, 8] };
+                let mut cells = Vec::new();
+                for &cap in &ecaps {
+                    for kind in BlockKind::all() {
+                        for tmo in threads::Tmo::ALL {
+                            for rk in threads::RecvKind::all() {
+                                cells.push((cap, kind, tmo, rk));
+                            }
+                        }
+                    }
+                }
+                let cells = &cells;
+                par_cases(r, &args2, cells.len() as u64, |i, r| {
+                    let (cap, kind, tmo, rk) = cells[i as usize];
+                    threads::extreme_case(r, cap, kind, tmo, rk);
+                });
             });
         }
         if want("flood") {
-            for &cap in &caps {
-                threads::flood_no_receiver(&mut r, cap);
-            }
+            let caps2 = caps.clone();
+            bounded_section(&mut r, "flood", sec_limit, move |r| {
+                for &cap in &caps2 {
+                    threads::flood_no_receiver(r, cap);
+                }
+            });
         }
         if want("refill") {
-            let n = args.n(96, 1_600);
-            let caps = &caps;
-            par_cases(&mut r, &args, n, |i, r| {
-                let cap = caps[(i % caps.len() as u64) as usize];
-                threads::refill_case(r, seed, i, cap);
+            let (args2, caps2) = (args.clone(), caps.clone());
+            bounded_section(&mut r, "refill", sec_limit, move |r| {
+                let n = args2.n(96, 1_600);
+                let caps = &caps2;
+                par_cases(r, &args2, n, |i, r| {
+                    let cap = caps[(i % caps.len() as u64) as usize];
+                    threads::refill_case(r, seed, i, cap);
+                });
             });
         }
         if want("conc") {
-            let n = args.n(80, 800);
-            let ops_per = if args.thorough() { 1_500 } else { 400 };
-            for i in 0..n {
-                let cap = caps[(i % caps.len() as u64) as usize];
-                threads::conc_case(&mut r, seed, i, cap, ops_per);
-            }
+            let (args2, caps2) = (args.clone(), caps.clone());
+            bounded_section(&mut r, "conc", sec_limit, move |r| {
+                let n = args2.n(80, 800);
+                let ops_per = if args2.thorough() { 1_500 } else { 400 };
+                for i in 0..n {
+                    let cap = caps2[(i % caps2.len() as u64) as usize];
+                    threads::conc_case(r, seed, i, cap, ops_per);
+                }
+            });
         }
-        for h in late_handles {
-            match h.join() {
-                Ok(child) => r.merge(child),
-                Err(_) => r.inconclusive("a `late` case thread panicked"),
+        for d in late_dones {
+            match d.wait(Duration::from_secs(260)) {
+                Some(child) => r.merge(child),
+                None => r.inconclusive("a `late` case did not come back within the watchdog"),
             }
         }
         emit_batcher::verif::set_delay_divisor(1);
